@@ -97,6 +97,14 @@ pub fn run(args: &Args) -> i32 {
             };
             let noise = i.feat.contains("noise");
             (i.bytes.clone(), i.desc.clone(), if noise { "features-noise" } else { "features" })
+        } else if kind < 25 {
+            // VarDCT frame (transcoded random JPEG, multi-group when large enough)
+            let Some((b, spec)) = crate::c17::valid_vardct_image(&mut rng, if thorough { 900 } else { 600 }) else {
+                case.inconclusive("generator gave up");
+                return;
+            };
+            let multi = spec.width > 256 || spec.height > 256;
+            (b, format!("VarDCT JPEG transcode {}x{} [{}]", spec.width, spec.height, spec.class), if multi { "vardct-multigroup" } else { "vardct-1group" })
         } else if kind < 29 {
             let opts = jxlgen::anim::AnimOpts { max_frames: 6, max_dim: if rng.chance(1, 3) { 300 } else { 48 }, multi_group: true, ..Default::default() };
             let mut g = None;
@@ -113,9 +121,9 @@ pub fn run(args: &Args) -> i32 {
             (a.bytes.clone(), a.desc.clone(), "anim")
         } else {
             let b = std::fs::read("/repo/crates/jxl-oxide-tests/tests/cms/cmyk_layers.jxl").unwrap_or_default();
-            (b, "cmyk_layers.jxl (real VarDCT multi-frame fixture)".to_string(), "fixture-vardct")
+            (b, "cmyk_layers.jxl (real multi-frame Modular fixture)".to_string(), "fixture-layers")
         };
-        let hostile = wclass != "fixture-vardct" && rng.chance(1, 6);
+        let hostile = wclass != "fixture-layers" && !wclass.starts_with("vardct") && rng.chance(1, 6);
         if hostile {
             for _ in 0..rng.urange(1, 4) {
                 let i = rng.below(bytes.len() as u64) as usize;
